@@ -151,6 +151,7 @@ inline bool explore(const Body& body, int pb, size_t maxSchedules, double deadli
                     const std::function<void(const Result&, const std::vector<int>& prefix)>& onResult, int maxSteps = 20000,
                     const std::string& sanLogPrefix = "") {
   double tEnd = detail::nowSec() + deadlineSec;
+  if (const char* cap = getenv("VERIF_PB_CAP")) pb = std::min(pb, atoi(cap));  // quick tier of the atomics pass
   for (int bound = 0; bound <= pb; bound++) {
     std::vector<std::vector<int>> stack;
     stack.push_back({});
